@@ -509,6 +509,20 @@ func runC03(r *Run) int {
 				e = d.E3
 			}
 		}
+		if key%8 == 5 { // object origin: by-value copy of a decoded and already scored object (with its own lower levels)
+			ov := newV3(rng.IntN(2), rng.IntN(nBase3))
+			randOptional3(&ov, spec.LEnv, rng)
+			if d, err, pan := lib.DecodeAuto(lib.K3E, render3(&ov, spec.LEnv, rng)); err == nil && pan == nil && !d.IsNil() {
+				d.Score()
+				d.Severity()
+				c := lib.CopyOf(d)
+				t := *c.E3.Temporal
+				b := *t.Base
+				t.Base = &b
+				c.E3.Temporal = &t
+				e = c.E3
+			}
+		}
 		o := lib.Obj{Kind: lib.K3E, E3: e}
 		for ti := 0; ti < 100; ti++ {
 			v := represent3(key, ti, rng, st)
